@@ -114,6 +114,10 @@ func style(t *rapid.T) *gen.Style {
 	st.NL = rapid.SampledFrom([]string{"\n", "\n", "\r\n", "\r"}).Draw(t, "nl")
 	st.Comments = rapid.SampledFrom([]int{0, 0, 1, 2, 3}).Draw(t, "comments")
 	st.EmptyAnn = rapid.SampledFrom([]int{0, 0, 1, 2, 3}).Draw(t, "emptyAnn")
+	st.NoteNextLine = rapid.IntRange(0, 2).Draw(t, "noteNextLine") == 0
+	if !st.MultiLine {
+		st.MixedAnn = rapid.SampledFrom([]int{0, 0, 1, 2}).Draw(t, "mixedAnn") // inline and multi-line side by side
+	}
 	return st
 }
 
